@@ -117,6 +117,20 @@ def run_natives(cs, n_cases, seed, jobs, size=4):
         return pool.map(_native_worker, work, chunksize=1)
 
 
+def _load_floors():
+    p = os.path.join(HERE, 'obligation_floors.json')
+    if os.path.exists(p):
+        try:
+            with open(p) as f:
+                return json.load(f)
+        except Exception:
+            return {}
+    return {}
+
+
+FLOORS = _load_floors()
+
+
 def load_findings():
     if not os.path.exists(FINDINGS_FILE):
         return []
@@ -255,8 +269,9 @@ def main(argv=None):
         if r['status'] != 'ok':
             errors.append(f"{r['qualname']}: {r['status']}: {r['message'][:400]}")
             continue
-        if len(obs) < c.min_obligations:
-            errors.append(f"{r['qualname']}: guard G-0: {len(obs)} obligations < floor {c.min_obligations}")
+        floor = max(c.min_obligations, FLOORS.get(r['qualname'], 0)) if c.min_obligations else 0
+        if len(obs) < floor:
+            errors.append(f"{r['qualname']}: guard G-0: {len(obs)} obligations < floor {floor}")
         for o in obs:
             by_backend[o['backend']] = by_backend.get(o['backend'], 0) + 1
             if o['verdict'] == 'proved':
